@@ -139,6 +139,9 @@ fn fmt_exec(r: &Result<(), ExecutionError>) -> String {
 struct ScriptClock {
     sh: Arc<Shared>,
     lags: HashMap<usize, i128>,
+    /// scheduling requests issued through a Scheduler handle from inside the k-th synchronize()
+    reqs: HashMap<usize, SchedReq>,
+    handle: Arc<Mutex<Option<(Scheduler, EventSource<u64>)>>>,
     n: usize,
     armed: Arc<Mutex<bool>>,
 }
@@ -150,6 +153,32 @@ impl Clock for ScriptClock {
         self.sh.log(format!("sync {}", from_time(deadline)));
         let k = self.n;
         self.n += 1;
+        if let Some(req) = self.reqs.get(&k) {
+            if let Some((scheduler, src)) = self.handle.lock().unwrap().as_mut() {
+                let id = req.id;
+                macro_rules! go {
+                    ($dlv:expr) => {
+                        match req.kind.as_str() {
+                            "once" => scheduler.schedule($dlv, src.event(id)),
+                            "periodic" => scheduler.schedule($dlv, src.periodic_event(to_dur(req.p), id)),
+                            "keyed" => {
+                                let (a, key) = src.keyed_event(id);
+                                self.sh.keys.lock().unwrap().insert(id, key);
+                                scheduler.schedule($dlv, a)
+                            }
+                            "kperiodic" => {
+                                let (a, key) = src.keyed_periodic_event(to_dur(req.p), id);
+                                self.sh.keys.lock().unwrap().insert(id, key);
+                                scheduler.schedule($dlv, a)
+                            }
+                            _ => panic!("kind"),
+                        }
+                    };
+                }
+                let r = if req.dl == "abs" { go!(to_time(req.d)) } else { go!(to_dur(req.d)) };
+                self.sh.log(format!("csched {} {}", k, fmt_sched(&r)));
+            }
+        }
         match self.lags.get(&k) {
             Some(l) => SyncStatus::OutOfSync(to_dur(*l)),
             None => SyncStatus::Synchronized,
@@ -173,18 +202,35 @@ fn verif_run_script() {
     let mut t0: i128 = 0;
     let mut tol: Option<i128> = None;
     let mut lags = HashMap::new();
+    let mut reqs: HashMap<usize, SchedReq> = HashMap::new();
     for l in &lines {
         match l[0].as_str() {
             "t0" => t0 = l[1].parse().unwrap(),
             "tol" => tol = if l[1] == "none" { None } else { Some(l[1].parse().unwrap()) },
             "clock" => {
-                lags.insert(l[1].parse::<usize>().unwrap(), l[3].parse::<i128>().unwrap());
+                let k = l[1].parse::<usize>().unwrap();
+                if l[2] == "lag" {
+                    lags.insert(k, l[3].parse::<i128>().unwrap());
+                } else {
+                    // clock <k> sched <kind> <abs|rel> <d> <p> <id>
+                    reqs.insert(
+                        k,
+                        SchedReq {
+                            kind: l[3].clone(),
+                            dl: l[4].clone(),
+                            d: l[5].parse().unwrap(),
+                            p: l[6].parse().unwrap(),
+                            id: l[7].parse().unwrap(),
+                        },
+                    );
+                }
             }
             _ => {}
         }
     }
     let sh = Arc::new(Shared::default());
     let armed = Arc::new(Mutex::new(false));
+    let handle: Arc<Mutex<Option<(Scheduler, EventSource<u64>)>>> = Arc::new(Mutex::new(None));
     let mbox_a: Mailbox<R> = Mailbox::new();
     let mbox_b: Mailbox<R> = Mailbox::new();
     let addr_a: Address<R> = mbox_a.address();
@@ -192,7 +238,7 @@ fn verif_run_script() {
     let mut init = SimInit::with_num_threads(threads)
         .add_model(R { sh: sh.clone() }, mbox_a, "a")
         .add_model(R { sh: sh.clone() }, mbox_b, "b")
-        .set_clock(ScriptClock { sh: sh.clone(), lags, n: 0, armed: armed.clone() });
+        .set_clock(ScriptClock { sh: sh.clone(), lags, reqs, handle: handle.clone(), n: 0, armed: armed.clone() });
     if let Some(t) = tol {
         init = init.set_clock_tolerance(to_dur(t));
     }
@@ -200,6 +246,11 @@ fn verif_run_script() {
     *armed.lock().unwrap() = true;
     let mut src: EventSource<u64> = EventSource::new();
     src.connect(R::fire, &addr_a);
+    {
+        let mut src2: EventSource<u64> = EventSource::new();
+        src2.connect(R::fire, &addr_a);
+        *handle.lock().unwrap() = Some((scheduler.clone(), src2));
+    }
 
     let mut out: Vec<String> = Vec::new();
     let mut idx = 0usize;
